@@ -122,10 +122,12 @@ pub fn gen_fmt_value(rng: &mut Rng) -> (i128, i32) {
             let a = rng.range_i64(-1200, 1200);
             (cal::days_from_civil(a, 1, 1) + rng.below(366) as i64) as i128 * D + rng.range_i128(0, D - 1)
         }
+        4 => crate::model::magic::gen_instant_at(rng, MIN_INSTANT + 2 * D, MAX_INSTANT - 2 * D) - if rng.chance(1, 2) { rng.range_i128(0, D) } else { 0 },
         _ => gen_c09_instant(rng),
     }
     .clamp(MIN_INSTANT + 2 * D, MAX_INSTANT - 2 * D);
-    let off = match rng.below(4) {
+    let off = match rng.below(5) {
+        4 => *rng.pick(&[86_399i32, -86_399, 86_340, -86_340, 85_680, 82_800, -82_800, 1439 * 60]),
         0 => *rng.pick(&[0, 0, 30, -30, 59, -59, 60, -60, 3600, -3600, 5 * 3600 + 1800, -(7 * 3600 + 52 * 60 + 58), 86_399, -86_399, 12 * 3600]),
         _ => gen_c09_offset(rng, i),
     };
@@ -336,6 +338,19 @@ pub fn run(ctx: &Ctx) -> PropResult {
             }
         }
     }));
+    // call sequences on one thread: the same instant under changing offsets with one pattern, and one value under
+    // changing patterns (then the first again) — what a "last result" memo with too small a key gets wrong
+    wls.push(Workload::cases("same_value_sequences", ctx.count(30_000, 1_000_000), |rec, idx, rng| {
+        let k = kinds()[(idx % 3) as usize];
+        let (i, o1) = gen_fmt_value(rng);
+        let p1 = gen_pattern(rng, k);
+        let p2 = gen_pattern(rng, k);
+        let o2 = if rng.chance(1, 3) { 0 } else { gen_fmt_value(rng).1 };
+        rec.bin("shape/same-value-call-sequence");
+        for (o, p) in [(o1, &p1), (o2, &p1), (o1, &p1), (o1, &p2), (o2, &p2), (o1, &p1)] {
+            judge(rec, k, i, o, p, None);
+        }
+    }));
     wls.push(Workload::cases("offset_local_under_a_changing_zone", ctx.count(3_000, 100_000), |rec, _, rng| super::localzone::zone_switch_case(rec, rng, "C11")));
     let out = run_workloads(ctx, wls);
     let mut meta = PropMeta::default();
@@ -346,7 +361,7 @@ pub fn run(ctx: &Ctx) -> PropResult {
     );
     meta.required_bins = vec![
         "local-twin/zone-switch-judged",
-        "shape/doubled-apostrophe", "shape/quoted-segment", "shape/over-long-run", "shape/multi-byte-literal", "shape/other-type's-symbol",
+        "shape/doubled-apostrophe", "shape/quoted-segment", "shape/over-long-run", "shape/same-value-call-sequence", "shape/multi-byte-literal", "shape/other-type's-symbol",
         "DateTime:h1/hour0", "DateTime:h2/hour12", "DateTime:k2/hour0", "DateTime:K1/hour12", "DateTime:b3/noon", "DateTime:b5/midnight", "DateTime:b1/noon±1s",
         "DateTime:y1/negative", "DateTime:y4/5+digits", "DateTime:y7/<4digits", "DateTime:w1/week53", "DateTime:w2/week1", "DateTime:G4/BC", "DateTime:e7/BC",
         "DateTime:X1/zero", "DateTime:X5/neg-with-seconds", "DateTime:x4/pos-with-seconds", "DateTime:X1/pos-with-minutes", "DateTime:n5/nonzero", "DateTime:D1/doy366",
